@@ -177,11 +177,15 @@ class FQN:
                         return_value = find_obj(m, name)
                         if return_value is not None:
                             return return_value
+                # A qualified name follows the model tree: only attributes
+                # with containment semantics are searched (neither `parent`
+                # nor non-containment references).
+                tx_attrs = getattr(parent.__class__, "_tx_attrs", {})
                 for attr in [
                     a
                     for a in parent.__dict__
-                    if not a.startswith("__")
-                    and not a.startswith("_tx_")
+                    if a in tx_attrs
+                    and tx_attrs[a].cont
                     and not callable(getattr(parent, a))
                 ]:
                     obj = getattr(parent, attr)
